@@ -29,7 +29,7 @@ def run_verus(path, rlimit=30, seed=None, multiple_errors=8, timeout=900, extra=
     cmd = [VERUS, path, "--output-json", "--time-expanded", "--rlimit", str(rlimit),
            "--multiple-errors", str(multiple_errors), "--triggers-mode", "silent", "--num-threads", "8"]
     if seed is not None:
-        cmd += ["--smt-option", "smt.random_seed=%d" % seed]
+        cmd += ["--smt-option", "smt.random_seed=%d" % int(seed)]
     cmd += list(extra)
     cmd += ["--", "--error-format=json"]
     t0 = time.time()
@@ -197,6 +197,9 @@ def classify(diag, text, genmap, byte_of_char=None):
         if mc:
             res["kind"] = "canary"
             res["label"] = mc.group(1)
+    elif "must have a decreases clause" in low or "decreases clause" in low and "must" in low:
+        # a missing annotation (new recursion / loop the unit does not know), not a failed termination proof
+        res["kind"] = "frontend"
     elif "decreases" in low or "termination" in low:
         res["kind"] = "decreases"
     elif "index out of bounds" in low or "out of bounds" in low:
